@@ -101,7 +101,7 @@ func runC11(w *W) {
 			ne("Time.PositionFu:default=sect2", lt.GetPositionFu(), lt.GetPositionFuBySect(2))
 			ne("Time.PositionFuDesc:default=sect2", lt.GetPositionFuDesc(), lt.GetPositionFuDescBySect(2))
 			// GetTimes()[k] vs NewLunarTime at that hour (once per day)
-			if ti == 0 {
+			if ti == 0 || t.h == 23 {
 				gt = l.GetTimes()
 				if len(gt) != 13 {
 					w.Viol("C11:GetTimes:len", fmt.Sprintf("GetTimes has %d entries at %s", len(gt), wit), wit)
